@@ -74,6 +74,67 @@ func (h *hist) chat(c *cl, m *smsg) {
 	h.sendChat(c, m)
 }
 
+// chatShaped: the tag inside a value that is not a string (S keeps the tag
+// for the monitors; the model sees an opaque value).
+func (h *hist) chatShaped(c *cl, m *smsg, shape int) {
+	tag := h.tag()
+	switch shape {
+	case 1:
+		m.Value = val{Kind: "m", S: tag, M: [][2]string{{"tag", tag}, {"x", "y"}}}
+	case 2:
+		m.Value = val{Kind: "o", S: tag, O: []interface{}{tag, 17, nil}}
+	default:
+		m.Value = val{Kind: "s", S: tag}
+	}
+	h.sendChat(c, m)
+}
+
+// every top-level field of the protocol message that a chat / usermessage
+// does not use, with values that decode
+var extraFields = []struct {
+	k string
+	v []interface{}
+}{
+	{"privileged", []interface{}{true, true, true, false}},
+	{"time", []interface{}{"1999-12-31T23:59:59Z", "2099-01-01T00:00:00+01:00", "yesterday", ""}},
+	{"permissions", []interface{}{[]string{"op", "present", "record"}, []string{}}},
+	{"status", []interface{}{map[string]interface{}{"name": "elsewhere", "locked": true, "clientCount": 99}}},
+	{"data", []interface{}{map[string]interface{}{"k": "v"}}},
+	{"error", []interface{}{"not-authorised", "boom"}},
+	{"group", []interface{}{"cb", "nosuchgroup"}},
+	{"version", []interface{}{[]string{"2", "1"}}},
+	{"replace", []interface{}{"r1"}},
+	{"password", []interface{}{"pwo"}},
+	{"token", []interface{}{"tok"}},
+	{"label", []interface{}{"camera"}},
+	{"sdp", []interface{}{"v=0"}},
+	{"request", []interface{}{map[string]interface{}{"": []string{"audio"}}}},
+	{"candidate", []interface{}{map[string]interface{}{"candidate": "candidate:0"}}},
+	{"rtcConfiguration", []interface{}{map[string]interface{}{"iceServers": []interface{}{}}}},
+}
+
+// extras: a random set of fields the stock client never sends in a chat;
+// mode 0 = none, 1 = just privileged:true, 2 = a few, 3 = all of them
+func extras(r *tr.Rand, mode int) map[string]interface{} {
+	e := map[string]interface{}{}
+	switch mode {
+	case 0:
+		return nil
+	case 1:
+		e["privileged"] = true
+	default:
+		for _, f := range extraFields {
+			if mode == 3 || r.Chance(1, 4) {
+				e[f.k] = f.v[r.Intn(len(f.v))]
+			}
+		}
+		if mode == 3 || r.Bool() {
+			e["privileged"] = true
+		}
+	}
+	return e
+}
+
 func clearMsg(id, userID string) *smsg {
 	var kv [][2]string
 	if id != "" {
@@ -310,6 +371,44 @@ func corpus(t *tr.Trace, r *tr.Rand) {
 		h.sendClearchat(o, clearMsg("", ""), "", "", false)
 		h.finish("corpus-clearchat")
 	}
+	// fields only the server may set, claimed by the sender, in every sender
+	// state: operator, plain member, demoted operator, promoted member
+	{
+		h := newHist(t, r, "corpus-claimed-fields")
+		h.mkgroup(groupSpec("g"))
+		o, m2, p, q := h.client("o"), h.client("m2"), h.client("p"), h.client("q")
+		h.joinAs(o, "g", "oper")
+		h.joinAs(m2, "g", "mod")
+		h.joinAs(p, "g", "plain")
+		h.joinAs(q, "g", "plain")
+		h.quiesce()
+		h.drainAll()
+		round := func(stage string) {
+			for i, c := range []*cl{o, m2, p, q} {
+				for mode := 1; mode <= 3; mode++ {
+					h.chat(c, &smsg{Type: "chat", ID: fmt.Sprintf("%s%d%d", stage, i, mode), Source: c.id, Extra: extras(r, mode)})
+				}
+				h.chat(c, &smsg{Type: "usermessage", Kind: "note", Extra: extras(r, 1)})
+				h.chat(c, &smsg{Type: "chat", ID: fmt.Sprintf("%sd%d", stage, i), Dest: "q", Extra: extras(r, 3)})
+				h.chat(c, &smsg{Type: "usermessage", Kind: "ring", Dest: "o", NoEcho: true, Extra: extras(r, 1)})
+				h.chat(c, &smsg{Type: "chat", Kind: "me", Extra: map[string]interface{}{"privileged": false}})
+				h.chatShaped(c, &smsg{Type: "chat", ID: fmt.Sprintf("%ss%d", stage, i), Extra: extras(r, 1)}, 1+i%2)
+			}
+			h.drainAll()
+		}
+		round("a")
+		// m2 is demoted, p is promoted; the changes take effect when they
+		// serve their queues
+		h.msg(o, &smsg{Type: "useraction", Kind: "unop", Dest: "m2"})
+		h.msg(o, &smsg{Type: "useraction", Kind: "op", Dest: "p"})
+		round("b") // not yet served: m2 is still an operator, p is not
+		h.quiesce()
+		round("c")
+		h.sendClearchat(q, &smsg{Type: "groupaction", Kind: "clearchat", Extra: extras(r, 3)}, "", "", false)
+		j := h.client("j")
+		h.joinAs(j, "g", "plain")
+		h.finish("corpus-claimed-fields")
+	}
 	// a member whose writer has exited is still a member
 	for k := 0; k < 3; k++ {
 		h := newHist(t, r, "corpus-dead-writer")
@@ -476,7 +575,11 @@ func randomHistory(t *tr.Trace, r *tr.Rand, idx int) {
 		if m.Type == "chat" && m.Dest == "" {
 			sources = append(sources, m.Source)
 		}
-		h.chat(c, m)
+		m.Extra = extras(r, r.Pick(5, 3, 2, 1))
+		if len(m.Extra) > 0 {
+			t.Note("claimed-fields")
+		}
+		h.chatShaped(c, m, r.Pick(8, 1, 1))
 	}
 	// a burst of valid broadcast chats (more than the history holds), then
 	// a joiner
